@@ -77,6 +77,11 @@ def run_family(ctx, family, n, prop, site):
     q = []
     for i, c in enumerate(cases):
         t = tables_json(c["db"])
+        # predicate push-down policy of the in-memory datasource (reject all / accept all / accept every other predicate): exercises the
+        # optimiser's PushDownFilterPredicatesToDatasource in its three outcomes; the unoptimised run never pushes anything down
+        if prop == "C04":
+            for tab in t.values():
+                tab["push"] = ("", "all", "alt")[i % 3]
         q.append({"id": "%d:o" % i, "tables": t, "sql": c["sql"], "optimize": True})
         q.append({"id": "%d:n" % i, "sql": c["sql"], "optimize": False})
     inp, out = ctx.scratch + "/rel_q_%s.ndjson" % family, ctx.scratch + "/rel_r_%s.ndjson" % family
